@@ -174,6 +174,7 @@ def run_c07_st(ctx):
         if key in seen:
             continue
         seen.add(key)
+        canc.append(dict(c, fail=[0, 0], cancel=[-1, 0]))   # cancelled before run()
         for b in range(1, len(c["kinds"]) + 1):
             for k in (1, 2, 3):
                 canc.append(dict(c, fail=[0, 0], cancel=[b, k]))
